@@ -613,14 +613,15 @@ func ruleRangeList(w *core.World, r *core.Report) {
 				return false
 			}
 			ia, ok := el.X.(*ssa.IndexAddr)
-			if !ok || ia.X != ls.Val {
+			// the list that is stored, also when it is a local shared with a closure and read anew at each mention
+			if !ok || !sameReadOfLocal(ia.X, ls.Val) {
 				return false
 			}
 			if first {
 				return isConstInt(0)(ia.Index)
 			}
 			b, ok := ia.Index.(*ssa.BinOp)
-			return ok && b.Op == token.SUB && isConstInt(1)(b.Y) && lenOf(func(x ssa.Value) bool { return x == ls.Val })(b.X)
+			return ok && b.Op == token.SUB && isConstInt(1)(b.Y) && lenOf(func(x ssa.Value) bool { return sameReadOfLocal(x, ls.Val) })(b.X)
 		}
 		okB = elem(minStore[0].Val, "Left", true) && elem(maxStore[0].Val, "Right", false) &&
 			core.Dominates(ls, minStore[0]) && core.Dominates(ls, maxStore[0]) || (core.Dominates(minStore[0], ls) && false)
